@@ -13,8 +13,8 @@ and every way of supplying the points enumerated (positional, keyword, None plac
 term contributes exactly once with its own coefficient and exponents, int() conversion of the stored exponents,
 and the result shape.  Polynomial substitution (every indeterminate given a 0-d polynomial; Call._substitution_cases) is
 proved at the level of abstract polynomial values: the same sum in the ring PV.  Not within this proof (bounded run-time
-check conc/checks_c02.py): array-valued points and arguments (numpy.outer/reshape shape algebra), partial evaluation,
-staged evaluation, machine-number kinds (Python int vs numpy scalar vs float).
+check conc/checks_c02.py): polynomial arguments that are arrays, numbers mixed with polynomial arguments, staged
+evaluation, machine-number kinds (Python int vs numpy scalar vs float).  Array-valued numeric points: Call._array_cases.
 """
 from __future__ import annotations
 import itertools
@@ -268,6 +268,89 @@ class Call(Contract):
     def cases(self):
         yield from self._numeric_cases()
         yield from self._substitution_cases()
+        yield from self._array_cases()
+
+    def _loops_array(self, D):
+        def inv(ex, env, k):
+            g = ex.ghost
+            out = env["out"]
+            if not isinstance(out, Arr):
+                return [("accumulator_is_a_plain_array", z3.BoolVal(False))]
+            return [("shape", out.shape == g["ST"]),
+                    ("partial_sum_of_the_first_k_terms", ex.ctx.forall_idx(lambda p: out.elem(p) == g["SA"](k, p), g["ST"]))]
+
+        def havoc(ex, env, k):
+            h = ex.ctx.func("out_h", Idx, R)
+            env["out"] = Arr(ex.ghost["ST"], lambda p: h(p), "real", ex.ctx.const("dt_out", DT), Region("fresh"))
+        mods = ("out", "term", "tmp", "exponent", "coefficient", "power", "name")
+
+        def ghost(ex, env, k):
+            from engine.logic import unfold_at
+            return [unfold_at(k + 1)]
+        return {3: LoopSpec(inv, havoc, modifies=mods, peel=1, ghost=ghost)}
+
+    def _array_cases(self):
+        """numeric evaluation at ARRAY points: result[i ++ j] = sum_t C(t, i) * prod_d a_d[j]**E(t, d), shape poly.shape + broadcast(arg shapes)"""
+        from engine.logic import unfold_at, bshape, bok, proj
+        from engine.polymodel import concat_axioms, ileft, iright
+        for label, D, args, kwargs in (("D1.array_positional", 1, (0,), {}), ("D2.arrays_positional", 2, (0, 1), {}),
+                                       ("D2.arrays_mixed", 2, (0,), {"q1": 1})):
+            def make_env(ex, D=D, args=args, kwargs=kwargs):
+                ctx = ex.ctx
+                for a in shape_axioms(ctx) + extra_shape_axioms(ctx) + mono_axioms(ctx) + order_axioms(ctx) + eok_axioms() + concat_axioms(ctx):
+                    ctx.assume(a)
+                P = Poly(ctx, "poly", D=D, region=Region("caller", "poly"))
+                ctx.assume(P.wf(ctx))
+                ctx.assume(ctx.forall_range(0, P.N, lambda t: keyok(P.row(t), P.D)))
+                P.concrete_names = list(NAMES[:D])
+                for d in range(D):
+                    ctx.assume(nat(P.names, d) == as_name(ex, NAMES[d]))
+                pts = []
+                for d in range(D):
+                    f = ctx.func(f"point{d}", Idx, R)
+                    pts.append(Arr(ctx.const(f"shape_point{d}", Shp), lambda i, f=f: f(i), "real", ctx.const(f"dt_point{d}", DT),
+                                   Region("caller", f"point{d}")))
+                T = pts[0].shape
+                for a in pts[1:]:
+                    ctx.assume(bok(T, a.shape))                 # precondition: the argument shapes broadcast
+                    T = bshape(T, a.shape)
+                ST = sconcat(P.shape, T)
+                xr = z3.Real(ctx.fresh("x"))
+                ctx.assume(z3.ForAll([xr], rpow(xr, 0) == 1))
+                SA = ctx.func("SA", I, Idx, R)
+                k, p = z3.Int(ctx.fresh("k")), z3.Const(ctx.fresh("p"), Idx)
+
+                def term(t, j):
+                    out = z3.RealVal(1)
+                    for d in range(D):
+                        jd = j if z3.eq(pts[d].shape, T) else proj(j, T, pts[d].shape)
+                        out = out * rpow(pts[d].elem(jd), expo(P.row(t), d))
+                    return out
+                ctx.assume(z3.ForAll([p], SA(0, p) == 0))
+                ctx.assume(z3.ForAll([k, p], z3.Implies(k >= 1, SA(k, p) == SA(k - 1, p) + P.C(k - 1, ileft(p, P.shape, T)) * term(k - 1, iright(p, P.shape, T))),
+                                     patterns=[z3.MultiPattern(SA(k, p), unfold_at(k))]))
+                ctx.assume(unfold_at(1))
+                ex.ghost = {"P": P, "SA": SA, "ST": ST, "T": T}
+                ex.hooks = {}
+                return {"poly": P, "args": tuple(pts[v] for v in args), "kwargs": {n: pts[v] for n, v in kwargs.items()}}
+
+            def check(out):
+                ex, ctx = out.ex, out.ctx
+                g = ex.ghost
+                P = g["P"]
+                ex.oblige(f"raises.nothing[{out.exc}:{out.value}]" if out.kind == "raise" else "raises.nothing", z3.BoolVal(out.kind == "return"), "post")
+                if out.kind != "return":
+                    return
+                r = out.value
+                ok = isinstance(r, Arr)
+                ex.oblige("post.plain_array_for_numeric_points", z3.BoolVal(ok), "post")
+                if not ok:
+                    return
+                ex.oblige("post.shape_is_poly_shape_plus_broadcast_point_shape", r.shape == g["ST"], "post")
+                ex.oblige("post.value_is_sum_over_terms_of_coefficient_times_point_powers",
+                          ctx.forall_idx(lambda p: r.elem(p) == g["SA"](P.N, p), g["ST"]), "post",
+                          note="element (i ++ j): sum over ALL terms of C(t, i) * prod_d a_d[j] ** E(t, d)")
+            yield Case(label, make_env, check, loops=self._loops_array(D))
 
     def _numeric_cases(self):
         for label, D, args, kwargs, outcome in binding_cases():
